@@ -852,6 +852,50 @@ I2C_STATES = ["IDLE", "START0", "RESTART0", "RESTART1", "STOP0", "STOP1", "STOP2
               "READACK1", "READ0", "READ1", "READ2", "WRITEACK0", "WRITEACK1"]
 
 
+class I2cReadDecoder:
+    """Pin-level decoder of the eight data bits of an I2C READ (independent of the model).  `step` is fed, per cycle, the
+    SCL level, whether the master is seen driving SDA low, and the SDA line value the master samples.  Rules:
+      - during the SCL-high phase of each data bit the master's SDA driver is released (the slave owns the line);
+      - the byte returned is, MSB first, the line value of each data bit (judged only when the line was constant during
+        the whole SCL-high phase of every bit and nothing disturbed the transfer)."""
+
+    def __init__(self):
+        self.active = False
+
+    def start(self):
+        self.active, self.clean, self.bits, self.high, self.pscl = True, True, [], [], 0
+
+    def abort(self):
+        self.active = False
+
+    def step(self, scl, drives_low, line, disturbed):
+        """-> (msg, byte or None when the eighth bit just completed cleanly)"""
+        if not self.active:
+            return None, None
+        msg, done = None, None
+        if disturbed:
+            self.clean = False
+        if scl:
+            if drives_low:
+                msg = "master drives SDA low during data bit %d of a READ" % len(self.bits)
+            self.high.append(line)
+        elif self.pscl:                                  # falling edge: the bit is over
+            if len(set(self.high)) != 1:
+                self.clean = False
+                self.bits.append(0)
+            else:
+                self.bits.append(self.high[0])
+            self.high = []
+            if len(self.bits) == 8:
+                self.active = False
+                if self.clean:
+                    done = 0
+                    for b in self.bits:
+                        done = (done << 1) | b
+        self.pscl = scl
+        return msg, done
+
+
 class I2cMonitor:
     """Pin-level I2C legality + liveness on the machine's scl_o / sda_o (independent of the model):
        - SDA changes while SCL is high before and after only as START (falling) or STOP (rising), and only when a
@@ -859,10 +903,13 @@ class I2cMonitor:
        - SCL and SDA change in the same cycle only when SCL falls (the pad stage of I2CMaster then delays SDA);
        - after the last command strobe the machine reports idle again within MAXTICKS clk2x periods
          (write 19, read 18, restart 3, stop 3 ticks after the command step; one period = load + 1 cycles);
-       - a write shifts out the byte MSB first on the 8 SCL rising edges, then releases SDA for the ACK clock."""
+       - READ (accepted in idle with SCL low): sda_o stays released during the eight data bits and the `data` register
+         then holds the sampled SDA values MSB first (`I2cReadDecoder`)."""
     MAXTICKS = 20
 
     def __init__(self, load):
+        self.rd = I2cReadDecoder()
+        self.prev_idle = 0
         self.prev = None
         self.since_cmd = None
         self.load = load
@@ -888,6 +935,18 @@ class I2cMonitor:
             if psda != sda and pscl != scl and scl:
                 msg = "SCL rises and SDA changes in the same cycle"
         self.prev = (scl, sda)
+        # READ decoding: the strobe is accepted when the machine showed idle in the previous cycle
+        if self.rd.active:
+            m2, byte = self.rd.step(scl, sda == 0, sda_i, bool(poke))
+            if msg is None and m2:
+                msg = m2
+            if msg is None and byte is not None and not poke and data != byte:
+                msg = "READ returned 0x%02x, SDA carried 0x%02x" % (data, byte)
+        if self.prev_idle and rd and not wr and not st and not scl:
+            self.rd.start()
+        elif self.prev_idle and run:
+            self.rd.abort()
+        self.prev_idle = idle
         if run:
             self.since_cmd = 0
         elif idle:
@@ -931,29 +990,59 @@ class I2cInst(PInst):
             n.set(c.ack, pa)
         n.settle()
 
-    def sample(self):
-        n, c = self.netlist, self.core
-        return [n.getu(c.scl_o), n.getu(c.sda_o), n.getu(c.idle), n.getu(c.data), n.getu(c.ack)]
-
     def idle_letter(self, last):
         return (0, 0, 0, 0, 1, self.load, 0, 0, 0)
 
+    def sample(self):
+        n, c = self.netlist, self.core
+        o = [n.getu(c.scl_o), n.getu(c.sda_o), n.getu(c.idle), n.getu(c.data), n.getu(c.ack)]
+        self._scl_out, self._idle_out = o[0], o[2]
+        return o
+
+    def probe_extensions(self, last):
+        """Scripted continuations for the failing-input search: let the machine idle, READ with ACK, READ again."""
+        k = 22 * (self.load + 1) + 4
+        idle = (0, 0, 0, 0, 1, self.load, 0, 0, 0)
+        rd = lambda a: (0, 0, 0, 1, 1, self.load, 1, 0, a)
+        wr = (0, 0, 1, 0, 1, self.load, 1, 0xa5, 0)
+        return [[idle] * k + [rd(1)] + [idle] * k + [rd(1)] + [idle] * k + [rd(0)] + [idle] * k,
+                [idle] * k + [wr] + [idle] * k + [rd(1)] + [idle] * k + [rd(0)] + [idle] * k]
+
     def gen(self, rng, t):
         if t == 0:
-            self._busy = 0
+            self._q, self._sda, self._idle_out, self._scl_out = [], 1, 1, 1
+        # the "slave": changes SDA while SCL is low (occasionally also while high, for the model comparison)
+        if (not self._scl_out and rng.random() < 0.5) or rng.random() < 0.02:
+            self._sda = rng.randint(0, 1)
         cmd = [0, 0, 0, 0]
         poke, pd, pa = 0, 0, 0
-        x = rng.random()
-        p = 0.02 if (t // 400) % 2 == 0 else 0.15
-        if x < p:
-            y = rng.random()
-            if y < 0.8:
-                cmd[rng.randrange(4)] = 1
+        if (t // 500) % 4 == 3:
+            # chaotic regime: strobes and pokes at any time, also while busy
+            if rng.random() < 0.1:
+                if rng.random() < 0.8:
+                    cmd[rng.randrange(4)] = 1
+                else:
+                    cmd = [rng.randint(0, 1) for _ in range(4)]
+                if cmd[2] or rng.random() < 0.3:
+                    poke, pd, pa = 1, rng.getrandbits(8), rng.randint(0, 1)
+            return tuple(cmd) + (rng.randint(0, 1), self.load, poke, pd, pa)
+        if not self._q:
+            S, P, W, R = (1, 0, 0, 0), (0, 1, 0, 0), (0, 0, 1, 0), (0, 0, 0, 1)
+            r = rng.random()
+            if r < 0.45:      # addressed multi-byte read: READ with ACK immediately followed by READ
+                self._q = [(S, None), (W, rng.getrandbits(8) | 1)] + [(R, 1)] * rng.randint(1, 3) + [(R, 0), (P, None)]
+            elif r < 0.8:
+                self._q = [(S, None), (W, rng.getrandbits(8)), (W, rng.getrandbits(8)), (P, None)]
             else:
-                cmd = [rng.randint(0, 1) for _ in range(4)]
-            if cmd[2] or rng.random() < 0.3:
-                poke, pd, pa = 1, rng.getrandbits(8), rng.randint(0, 1)
-        return tuple(cmd) + (rng.randint(0, 1), self.load, poke, pd, pa)
+                self._q = [(rng.choice([S, P, W, R, (1, 0, 1, 0), (0, 1, 0, 1)]), rng.getrandbits(8))]
+        if self._idle_out and rng.random() < 0.5:
+            c, arg = self._q.pop(0)
+            cmd = list(c)
+            if c[2] and arg is not None:
+                poke, pd, pa = 1, arg, 0
+            elif c[3] and arg is not None:
+                poke, pd, pa = 1, rng.getrandbits(8), arg
+        return tuple(cmd) + (self._sda, self.load, poke, pd, pa)
 
 
 # ---------------------------------------------------------------------------------------------------------
@@ -984,9 +1073,14 @@ class I2cPadMonitor:
     cycles, SDA may change only while SCL is low in both, except for a START (SDA falling, SCL high) or STOP (SDA
     rising, SCL high) that software requested (start/stop bit written to the transfer register and not yet seen on
     the bus; clock stretching may defer it past the return to idle).  Only transitions caused by the master are judged: cycles in which the external drive of the harness changed
-    are skipped.  Liveness: idle returns within 21 clk2x periods after the last command write."""
+    are skipped.  Liveness: idle returns within 21 clk2x periods after the last command write.
+    READ (written while idle, SCL low, no clock stretching during it): the master's SDA driver is released during the
+    eight data bits and bus.dat_r then returns the SDA values of those bits, MSB first (`I2cReadDecoder`)."""
 
     def __init__(self):
+        self.rd = I2cReadDecoder()
+        self.expect = None           # byte that bus.dat_r must show in the next cycle
+        self.prev_adr0 = 1
         self.prev = None
         self.req_start = self.req_stop = False
         self.since = None
@@ -1008,6 +1102,26 @@ class I2cPadMonitor:
                     msg = "SDA %d->%d while SCL %d->%d (no %s requested)" % (
                         psda, sda, pscl, scl, "start" if sda == 0 else "stop")
         self.prev = (scl, sda, escl, esda)
+        wr_x = bool(cyc and stb and we and not back and not adr0)
+        if self.expect is not None:
+            if msg is None and not self.prev_adr0 and (datr & 0xff) != self.expect:
+                msg = "READ returned 0x%02x, SDA carried 0x%02x" % (datr & 0xff, self.expect)
+            self.expect = None
+        if self.rd.active:
+            if not escl:
+                self.rd.abort()                       # clock stretching: not judged
+            else:
+                m2, byte = self.rd.step(scl, sda == 0 and esda == 1, sda, wr_x)
+                if msg is None and m2:
+                    msg = m2
+                if byte is not None and not wr_x:
+                    self.expect = byte
+        if wr_x and idle:
+            if (dat & I2C_R) and not (dat & (I2C_W | I2C_S)) and not scl and escl:
+                self.rd.start()
+            elif dat & (I2C_S | I2C_P | I2C_W | I2C_R):
+                self.rd.abort()
+        self.prev_adr0 = adr0
         if cyc and stb and we and not back:
             if adr0:
                 self.load = dat & 0xfffff
@@ -1064,8 +1178,22 @@ class I2cMasterInst(PInst):
 
     def sample(self):
         n = self.netlist
-        return [n.getu(self.pads.scl), n.getu(self.pads.sda), n.getu(self._bus.ack), n.getu(self._bus.dat_r),
-                n.getu(self.core.i2c.idle)]
+        o = [n.getu(self.pads.scl), n.getu(self.pads.sda), n.getu(self._bus.ack), n.getu(self._bus.dat_r),
+             n.getu(self.core.i2c.idle)]
+        self._pscl = o[0]
+        return o
+
+    def probe_extensions(self, last):
+        """Scripted continuations for the failing-input search: program the divider, START, address, READ with ACK,
+        READ again, STOP - every command after the core went idle."""
+        ld = max(self.load, 1)
+        k = 22 * (ld + 1) + 6
+        idle = (0, 0, 0, 0, 0, 1, 1)
+        w = lambda adr0, dat: [(1, 1, 1, adr0, dat, 1, 1), (1, 1, 1, adr0, dat, 1, 1)]
+        seq = [idle] * k + w(1, ld)
+        for dat in (I2C_S, I2C_W | 0xa1, I2C_R | 256, I2C_R | 256, I2C_R, I2C_P):
+            seq += w(0, dat) + [idle] * k
+        return [seq]
 
     def nontrivial(self, letter, outs):
         return bool((letter[0] and letter[1]) or not outs[4])
@@ -1079,8 +1207,12 @@ class I2cMasterInst(PInst):
             self._idle = 1
             self._wait = 0
             self._hold = None
+            self._pscl, self._esda = 1, 1
         escl = 0 if (self.stretch and rng.random() < self.stretch) else 1
-        esda = rng.randint(0, 1) if rng.random() < 0.5 else 1
+        # the "slave" changes SDA while SCL is low (occasionally also while high, for the model comparison)
+        if (not self._pscl and rng.random() < 0.5) or rng.random() < 0.02:
+            self._esda = rng.randint(0, 1)
+        esda = self._esda
         if self._hold is not None:                # second cycle of a classic Wishbone write (ack cycle)
             l = self._hold
             self._hold = None
@@ -1094,8 +1226,9 @@ class I2cMasterInst(PInst):
                 byte = rng.getrandbits(8)
                 self._q = [(0, I2C_S), (0, I2C_W | byte), (0, I2C_W | rng.getrandbits(8)), (0, I2C_P)]
             elif r < 0.8:
-                self._q = [(0, I2C_S), (0, I2C_W | rng.getrandbits(8)), (0, I2C_S), (0, I2C_W | 1 | rng.getrandbits(8)),
-                           (0, I2C_R | (rng.randint(0, 1) << 8)), (0, I2C_R), (0, I2C_P)]
+                # addressed multi-byte read: READ with ACK immediately followed by READ
+                self._q = [(0, I2C_S), (0, I2C_W | rng.getrandbits(8)), (0, I2C_S), (0, I2C_W | 1 | rng.getrandbits(8))] + \
+                          [(0, I2C_R | 256)] * rng.randint(1, 3) + [(0, I2C_R), (0, I2C_P)]
             elif r < 0.9:
                 self._q = [(0, rng.choice([I2C_P, I2C_S, I2C_R, I2C_W | 0xa5, I2C_S | I2C_W | 0x3c, I2C_W | I2C_P]))]
             else:
